@@ -303,8 +303,15 @@ func main() {
 		c.Rule("in-process: random recipes with 0-5 dependencies and up to ten map-valued attributes of 0-5 entries; each performed once as generated and " +
 			"3 (thorough: 6) more times with every map's insertion order, the order of the AddDependency calls and their position relative to the sources shuffled; " +
 			"all real build.RuleHash values (rule hash and runtime hash) must be equal, equal to sha1 of the interpreted stream, and the Coq `ser prog` of both " +
-			"stored states must equal that stream. end to end: `plz hash --detailed` on generated repositories (3-5 packages, dict-valued srcs/outs/env/" +
-			"entry_points/provides, diamonds) under -n 1 and -n 16, permuted target order, clean and warm plz-out; reports compared per target. " +
+			"stored states must equal that stream. source hash: random real build graphs of 4-9 targets (file / label / annotated-output sources in unnamed and " +
+			"named groups, file and label tools, 0-5 deps, exported deps, run-time deps, require/provide, needs_transitive / output_is_complete flags) built in a " +
+			"temporary repository with real files, once as generated and 3 (thorough: 5) more times with the named groups, the deps list and its position " +
+			"shuffled for every node; the real build.sourceHash (hook VerifSourceHash) must not change when the read-back exported / run-time dependency " +
+			"orders agree, sha1 of the generated program interpreted over the real IterSources / AllTools / PathHasher must equal it, and the Coq model " +
+			"(Model/C07_Src.v) must reproduce both streams from the read-back graphs; non-trivial = top target with >= 3 dependencies, >= 2 named groups, >= 4 " +
+			"yielded sources and two different stored states. end to end: `plz hash --detailed` on generated repositories (3-5 packages, dict-valued srcs/outs/env/" +
+			"entry_points/provides, diamonds) under -n 1 and -n 16, permuted target order, clean and warm plz-out; reports compared per target; and the two witnesses of map-order insertion (8-group dict srcs with exported_deps / " +
+			"runtime_deps_from_srcs) hashed 5 (thorough: 12) times on one tree. " +
 			"distinct = distinct stored states; non-trivial = >= 2 maps with >= 2 entries and >= 2 dependencies")
 		prog := rh.LoadProg()
 
